@@ -28,7 +28,7 @@ PROPERTY = {
     "rule": "one case = one architecture / mode, one chunk of 100 byte strings and one group of failure classes (the classes of one known finding of that architecture, or every other class)",
     "trusted_base": ["CPython executes the real decoders and assemblers; the sampling and the comparison are written in props/C15.py"],
     "assumptions": ["seeded family: 14 architectures / modes x 20 chunks quick (x 200 chunks thorough) x (100 random strings + the boundary variants of 5 of them: last 1 / 2 / 4 / 8 bytes replaced by 0, 1 and the signed / unsigned limits of every narrower width, both byte orders)",
-                    "curated family: every vector of test/arch/{x86,arm,aarch64,mips32,ppc32,msp430}/arch.py (read with ast) and all its boundary variants (quick: every sixth group of 10 vectors)",
+                    "curated family: every vector of test/arch/{x86,arm,aarch64,mips32,ppc32,msp430}/arch.py (read with ast) and all its boundary variants",
                     "an instruction the decoder refuses is not a case"],
 }
 
@@ -207,7 +207,7 @@ class AsmCases(BoundedContract):
             fam = family(ARCHS[a][0])
             gids = sorted(g for g, (f, _) in known_groups("C15").items() if f == fam) + [""]
             ncur = (len(curated(ARCHS[a][0])) + CUR_CHUNK - 1) // CUR_CHUNK
-            ks = list(range(n)) + [("cur", j) for j in range(ncur) if self.tier != "quick" or j % 6 == 0]
+            ks = list(range(n)) + [("cur", j) for j in range(ncur)]
             out += [(a, k, g) for k in ks for g in gids]
         return out
 
